@@ -39,51 +39,76 @@ def amoOpOf : String → Option AmoOp
   | "amoand.w" => some .and | "amoor.w" => some .or | "amomin.w" => some .min
   | "amomax.w" => some .max | "amominu.w" => some .minu | "amomaxu.w" => some .maxu | _ => none
 
-/-- The 32-bit instruction that `name operands…` denotes.
+/-- the operation a 32-bit mnemonic names -/
+inductive Mn32 where
+  | r (o : ROp) | sh (o : ShOp) | i (o : IOp) | ld (o : LdOp) | st (o : StOp) | br (o : BrOp)
+  | csr (o : CsrOp) | jalr | lui | auipc | jal | fence | ecall | ebreak | fenceI | sc
+  | amo (o : AmoOp) | lr
+  deriving Repr, DecidableEq
+
+def classOf (name : String) : Option Mn32 :=
+  match rOpOf name with
+  | some o => some (.r o)
+  | none =>
+  match shOpOf name with
+  | some o => some (.sh o)
+  | none =>
+  match iOpOf name with
+  | some o => some (.i o)
+  | none =>
+  match ldOpOf name with
+  | some o => some (.ld o)
+  | none =>
+  match stOpOf name with
+  | some o => some (.st o)
+  | none =>
+  match brOpOf name with
+  | some o => some (.br o)
+  | none =>
+  match csrOpOf name with
+  | some o => some (.csr o)
+  | none =>
+  match amoOpOf name with
+  | some o => some (.amo o)
+  | none =>
+  if name = "jalr" then some .jalr else if name = "lui" then some .lui
+  else if name = "auipc" then some .auipc else if name = "jal" then some .jal
+  else if name = "fence" then some .fence else if name = "ecall" then some .ecall
+  else if name = "ebreak" then some .ebreak else if name = "fence.i" then some .fenceI
+  else if name = "sc.w" then some .sc else if name = "lr.w" then some .lr else none
+
+/-- The 32-bit instruction that an operation with resolved operands denotes.
     * `lui/auipc rd, imm`: the 20-bit field is `imm mod 2^20` (both the signed and the unsigned
       spelling of the upper immediate are documented, issue #8 / test_assemble_lui_signedness).
     * `fence succ, pred` (bronzebeard's operand order, docs/instruction_reference.rst).
     * CSR instructions: `csr = imm mod 4096`; for the `…i` forms the second operand is the uimm. -/
+def intentOf (c : Mn32) (ops : List Opnd) : Option Instr32 :=
+  match c, ops with
+  | .r o, [.reg rd, .reg rs1, .reg rs2] => some (.r o rd rs1 rs2)
+  | .sh o, [.reg rd, .reg rs1, .reg sh] => some (.sh o rd rs1 sh)
+  | .i o, [.reg rd, .reg rs1, .imm v] => some (.i o rd rs1 v)
+  | .ld o, [.reg rd, .reg rs1, .imm v] => some (.load o rd rs1 v)
+  | .st o, [.reg rs1, .reg rs2, .imm v] => some (.store o rs1 rs2 v)
+  | .br o, [.reg rs1, .reg rs2, .imm v] => some (.branch o rs1 rs2 v)
+  | .csr o, [.reg rd, .reg src, .imm v] => some (.csr o rd src (v % 4096).toNat)
+  | .jalr, [.reg rd, .reg rs1, .imm v] => some (.jalr rd rs1 v)
+  | .lui, [.reg rd, .imm v] => some (.lui rd (v % 1048576).toNat)
+  | .auipc, [.reg rd, .imm v] => some (.auipc rd (v % 1048576).toNat)
+  | .jal, [.reg rd, .imm v] => some (.jal rd v)
+  | .fence, [.imm succ, .imm pred] => some (.fence 0 pred.toNat succ.toNat 0 0)
+  | .ecall, [] => some .ecall
+  | .ebreak, [] => some .ebreak
+  | .fenceI, [] => some .fenceI
+  | .sc, [.reg rd, .reg rs1, .reg rs2, .imm aq, .imm rl] => some (.sc (aq = 1) (rl = 1) rd rs1 rs2)
+  | .amo o, [.reg rd, .reg rs1, .reg rs2, .imm aq, .imm rl] => some (.amo o (aq = 1) (rl = 1) rd rs1 rs2)
+  | .lr, [.reg rd, .reg rs1, .imm aq, .imm rl] => some (.lr (aq = 1) (rl = 1) rd rs1)
+  | _, _ => none
+
+/-- The 32-bit instruction that the source line `name operands…` denotes. -/
 def intent32 (name : String) (ops : List Opnd) : Option Instr32 :=
-  match ops with
-  | [.reg rd, .reg rs1, .reg x] =>
-    match rOpOf name with
-    | some op => some (.r op rd rs1 x)
-    | none => (shOpOf name).map (fun op => .sh op rd rs1 x)
-  | [.reg a, .reg b, .imm v] =>
-    match iOpOf name with
-    | some op => some (.i op a b v)
-    | none =>
-    match ldOpOf name with
-    | some op => some (.load op a b v)
-    | none =>
-    match stOpOf name with
-    | some op => some (.store op a b v)
-    | none =>
-    match brOpOf name with
-    | some op => some (.branch op a b v)
-    | none =>
-    match csrOpOf name with
-    | some op => some (.csr op a b (v % 4096).toNat)
-    | none => if name = "jalr" then some (.jalr a b v) else none
-  | [.reg rd, .imm v] =>
-    if name = "lui" then some (.lui rd (v % 1048576).toNat)
-    else if name = "auipc" then some (.auipc rd (v % 1048576).toNat)
-    else if name = "jal" then some (.jal rd v)
-    else none
-  | [.imm succ, .imm pred] =>
-    if name = "fence" then some (.fence 0 pred.toNat succ.toNat 0 0) else none
-  | [] =>
-    if name = "ecall" then some .ecall
-    else if name = "ebreak" then some .ebreak
-    else if name = "fence.i" then some .fenceI
-    else none
-  | [.reg rd, .reg rs1, .reg rs2, .imm aq, .imm rl] =>
-    if name = "sc.w" then some (.sc (aq = 1) (rl = 1) rd rs1 rs2)
-    else (amoOpOf name).map (fun op => .amo op (aq = 1) (rl = 1) rd rs1 rs2)
-  | [.reg rd, .reg rs1, .imm aq, .imm rl] =>
-    if name = "lr.w" then some (.lr (aq = 1) (rl = 1) rd rs1) else none
-  | _ => none
+  match classOf name with
+  | some c => intentOf c ops
+  | none => none
 
 /-- The RVC instruction that `c.xxx operands…` denotes (docs/instruction_reference.rst). -/
 def intent16 (name : String) (ops : List Opnd) : Option CInstr :=
